@@ -431,7 +431,8 @@ def cleanup_rule(ck, m):
     if nf is not None and flips % 2 == 1:
         nf = not nf
     part = None
-    for bi, t in b.calls():
+    unit_calls = [(bi, t) for bi, t in b.calls()] + [(bi, t) for hb_ in P.private_helpers(b) for bi, t in hb_.calls()]
+    for bi, t in unit_calls:
         da = t['f'].get('dargs', '')
         if callee_decl(t) in ('std::ops::Index::index', 'std::ops::IndexMut::index_mut', 'std::slice::get'):
             if 'RangeFrom<' in da:
